@@ -203,6 +203,94 @@ fn sig4(ctx: &mut Ctx, version: u8, typ: u8, pk: u8, hash: u8, hashed: &[u8], un
     pkt(ctx, 2, body, canonical, label)
 }
 
+/// Hashed-area fidelity (D2a repair, `ensure_hashed_area_canonical`): subpacket payloads the parser
+/// normalises - boolean octets other than 0/1, Notation flag octets other than 0x00/0x80, MPI bit
+/// counts of an embedded signature - in the hashed area, in the unhashed area, and inside embedded
+/// signatures one and two levels down (each of which has a hashed and an unhashed area of its own).
+/// In a HASHED area (at any level) such a payload must be refused; in an unhashed area it is
+/// accepted and written back normalised.  Whatever is accepted keeps its hashed area octet for octet.
+fn gen_hashed_canonical(ctx: &mut Ctx) {
+    // (subpacket, is it in the form rpgp writes back?)
+    let mut subs: Vec<(Vec<u8>, bool, String)> = Vec::new();
+    for t in [4u8, 7, 25] {
+        for v in [0u8, 1, 2, 0x80, 0xFF] {
+            subs.push((wire::subpacket_min(t, &[v]), v <= 1, format!("bool{t}={v:#04x}")));
+        }
+    }
+    for f in [0x00u8, 0x80, 0x01, 0x40, 0xC0, 0xFF] {
+        let body = [vec![f, 0, 0, 0, 0, 1, 0, 1], b"ab".to_vec()].concat();
+        subs.push((wire::subpacket_min(20, &body), f == 0x00 || f == 0x80, format!("notation_flags={f:#04x}")));
+    }
+    // embedded signatures whose own encoding is / is not what rpgp writes back
+    let emb_mpi = |bits: u16| wire::sig_v4(4, 0x19, 1, 8, &wire::subpacket_min(2, &[0x60, 1, 2, 3]), &[], [1, 2], None, &wire::mpi_raw(bits, &[0x01, 0xFF]));
+    for bits in [9u16, 10, 12, 16] {
+        subs.push((wire::subpacket_min(32, &emb_mpi(bits)), bits == 9, format!("embedded_mpi_bits={bits}")));
+    }
+    let flat = subs.clone();
+    // one level down: an embedded signature carrying each of the above in ITS hashed / unhashed area
+    for (sp, canon, name) in &flat {
+        for inner_hashed in [true, false] {
+            let e = if inner_hashed {
+                wire::sig_v4(4, 0x19, 1, 8, sp, &[], [1, 2], None, &sig_tail(1))
+            } else {
+                wire::sig_v4(4, 0x19, 1, 8, &[], sp, [1, 2], None, &sig_tail(1))
+            };
+            // refused outright iff the non-canonical payload sits in a hashed area of the embedded signature
+            let refused = inner_hashed && !canon;
+            subs.push((wire::subpacket_min(32, &e), *canon, format!("embedded[{}:{name}]{}", if inner_hashed { "hashed" } else { "unhashed" }, if refused { "!" } else { "" })));
+        }
+    }
+    // two levels down, hashed inside hashed and hashed inside unhashed
+    for (sp, canon, name) in &flat {
+        for mid_hashed in [true, false] {
+            let e2 = wire::sig_v4(4, 0x19, 1, 8, sp, &[], [1, 2], None, &sig_tail(1));
+            let a2 = wire::subpacket_min(32, &e2);
+            let e1 = if mid_hashed {
+                wire::sig_v4(4, 0x18, 1, 8, &a2, &[], [1, 2], None, &sig_tail(1))
+            } else {
+                wire::sig_v4(4, 0x18, 1, 8, &[], &a2, [1, 2], None, &sig_tail(1))
+            };
+            subs.push((wire::subpacket_min(32, &e1), *canon, format!("embedded2[{}:hashed:{name}]{}", if mid_hashed { "hashed" } else { "unhashed" }, if *canon { "" } else { "!" })));
+        }
+    }
+    let h0 = wire::subpacket_min(2, &[0x60, 1, 2, 3]);
+    for (sp, canon, name) in &subs {
+        let refused_anywhere = name.ends_with('!');
+        for version in [4u8, 6] {
+            for outer_hashed in [true, false] {
+                let area = [h0.clone(), sp.clone()].concat();
+                let (pk, tail) = if version == 6 { (27u8, sig_tail(27)) } else { (1u8, sig_tail(1)) };
+                let salt = pattern(9, 16);
+                let body = if outer_hashed {
+                    wire::sig_v4(version, 0x18, pk, 8, &area, &[], [0xAB, 0xCD], if version == 6 { Some(&salt) } else { None }, &tail)
+                } else {
+                    wire::sig_v4(version, 0x18, pk, 8, &h0, sp, [0xAB, 0xCD], if version == 6 { Some(&salt) } else { None }, &tail)
+                };
+                set_note(&format!("hashed_canonical:{name}:{}", if outer_hashed { "hashed" } else { "unhashed" }));
+                let real = pkt(ctx, 2, body.clone(), *canon, "hashed_canonical");
+                set_note("");
+                let must_refuse = refused_anywhere || (outer_hashed && !canon);
+                let input = format!("c05_pkt data={} #{name} outer={} v{version}", hex::encode(crate::sigrec::packet5(2, &body)), if outer_hashed { "hashed" } else { "unhashed" });
+                let accepted = real.pkt.is_some();
+                ctx.stat(&format!("hashed_canonical:{}:{}", if must_refuse { "noncanonical_in_hashed" } else { "writable" }, if accepted { "accepted" } else { "refused" }));
+                // "parses to a value that serializes to bytes that parse back to an equal value": a hashed
+                // area that would be written back differently cannot be part of such a value
+                ctx.oracle("noncanonical_hashed_area_refused", "Signature::try_from_reader (ensure_hashed_area_canonical)", &input, !(must_refuse && accepted), "accepted");
+                ctx.oracle("writable_area_accepted", "Signature::try_from_reader", &input, must_refuse || accepted, &real.ans);
+                // whatever is accepted keeps its hashed area octet for octet
+                if let Some(out) = &real.out {
+                    let kept = crate::sigrec::split_packets(out)
+                        .and_then(|p| p.first().map(|x| x.1.clone()))
+                        .and_then(|b| crate::sigrec::parse_sig_body(&b))
+                        .map(|f| Some(f.area) == crate::sigrec::parse_sig_body(&body).map(|g| g.area))
+                        .unwrap_or(false);
+                    ctx.oracle("hashed_area_kept_as_received", "PacketParser -> Signature::to_writer_with_header", &input, kept, "hashed area rewritten");
+                }
+            }
+        }
+    }
+}
+
 fn gen_signatures(ctx: &mut Ctx) {
     let h0 = wire::subpacket_min(2, &[0x60, 1, 2, 3]);
     let u0 = wire::subpacket_min(16, &KEYID);
@@ -343,6 +431,7 @@ fn gen_signatures(ctx: &mut Ctx) {
             }
         }
     }
+    gen_hashed_canonical(ctx);
     // declared subpacket length 0, length beyond the area, area length beyond the packet
     for area in [vec![0u8], vec![0, 2], vec![5, 100, 1], vec![255, 0, 0, 0, 2, 100, 1], vec![255, 0, 0, 0, 0], vec![192], vec![254, 255, 100], vec![255, 0, 0]] {
         sig4(ctx, 4, 0, 1, 8, &area, &[], &sig_tail(1), false, "area_malformed");
